@@ -1,47 +1,66 @@
-"""C03 — fetch copies history completely and faithfully.
+"""C03 — fetch, push and pull copy history completely and faithfully.
 
-Mechanism: InterVersionedFileRepository.search_missing_revision_ids /
-_walk_to_common_revisions, RepoFetcher, StreamSource / GroupCHKStreamSource /
-StreamSink (and their Remote* counterparts behind the insert_stream / get_stream
-smart verbs), InterDifferingSerializer, Inter1and2Helper root generation.
+Mechanism: InterVersionedFileRepository.search_missing_revision_ids / _walk_to_common_revisions (batched
+breadth-first walk, batch size 50), RepoFetcher, StreamSource / GroupCHKStreamSource / StreamSink (and their
+Remote* counterparts behind the insert_stream / get_stream smart verbs), InterDifferingSerializer._fetch_batch,
+Inter1and2Helper root generation, Branch.pull / Branch.push (NotInOtherForRevs + fetch_spec).
 
-Model (lean/BreezyVerif/Model/C03.lean): a repository is three finite maps
-(revisions: id -> parents+metadata token; inventories: id -> entries
-(file, name token, text revision, content token); texts: (file, text revision)
--> content token).  `missing` is the revision search as the code performs it
-for histories that fit one search batch (walk the source ancestry of the
-requested revision, drop everything that is a source-ancestor of a revision the
-target already has; `find_ghosts=True`: everything in the source ancestry the
-target lacks); `fetch` copies revision records, inventories and the texts of the
-entries that differ from every inventory of the excluded boundary parents (the
-exclusion as found at the pinned commit or as repaired by the fix: commit - the
-harness probes which one the tree implements), and, for targets that support
-external lookups, the inventories of parents that are not revisions of the
-target (StreamSink's request for missing parent inventories).
+Model (lean/BreezyVerif/Model/C03.lean): a repository is three finite maps (revisions: id -> parents+metadata
+token; inventories: id -> entries (file, name token, text revision, content token); texts: (file, text revision)
+-> content token) plus the per-file graph (text key -> per-file parents, `RepoH`).
+ * `missing` - the revision search when the whole source ancestry fits one batch; `missingB n` - the search as the
+   code performs it for ANY history length: `walkLoop` models the two nested loops of _walk_to_common_revisions on
+   the searcher state (seen, stopped, current layer, next query): layers are taken until >= n present revisions
+   are collected, the target is asked which it has, `find_seen_ancestors` of those (reachability inside the seen
+   set) are stopped (`stop_searching_any`: current layer filtered, next query keeps what a non-stopped key
+   references), repeat; result seen - stopped.  With several batches the result depends on the layering for
+   targets that hold a revision without one of its parents (theorem missingB_batch_matters_witness).
+ * `fetchB n kind` - the copy: revision records, inventories, per-file parents and the texts selected by the
+   kind of copy: `filtered x` (stream sources: entries in no inventory of an excluded boundary parent; the exclusion
+   as found at the pinned commit or as repaired by the fix: commit - the harness probes which one the tree has) or
+   `perRevision` (InterDifferingSerializer: per sent revision the entries none of its own parents' inventories
+   has); for targets supporting external lookups also the parent inventories StreamSink asks for.
+ * `fetchSeq` - sequences of fetches from one source.
+Theorems (Props/C03.lean, all unbounded): the one-batch set (anc_total ... fetch_consistent), and for every batch
+size n >= 1 and history length: walkB_total, missingB_sound / _behind / _closed / _held_nil, fetchB_monotone /
+_complete / _faithful / _testament / _texts_faithful / _consistent (both kinds of copy; perRevision needs an
+acyclic history: perRevision_cyclic_witness), fetchB_idempotent(+_acyclic), fetchBH_perfile_faithful (per-file
+parents), fetch(B)_preserves_closed / _agree, fetchSeq_invariant and fetchSeq_from_empty (no hypothesis on the
+target: any sequence of fetches from a consistent source into an empty repository gives faithful complete copies).
 
-T2: generated histories are built in two "home" repositories of the source
-format with BranchBuilder (merges, ghost parents that exist nowhere, ghost
-parents that exist in the other home, renames, deletions, kind variety, many
-small files per commit whose contents share long lines and contain NUL /
-binary bytes).  A target repository of the target format then receives a
-sequence of fetches of random revisions from the two homes (so later fetches
-meet partially overlapping contents, including revisions whose parent is a
-ghost in the target but present in the source), locally or with the source or
-the target opened through an in-process smart server (bzr://127.0.0.1).  For
-every fetch the abstract state of source and target before the fetch is sent
-to the Lean driver and its prediction (error kind, missing revision set,
-revision / inventory / text key sets of the target afterwards) is compared
-with the real repositories.
+T2: generated histories are built in two "home" repositories of the source format with BranchBuilder (merges,
+ghost parents that exist nowhere, ghost parents that exist in the other home, renames, deletions, kind variety,
+many small files per commit whose contents share long lines and contain NUL / binary bytes).  A target repository
+of the target format then receives a sequence of fetches of random revisions from the two homes (so later fetches
+meet partially overlapping contents, including revisions whose parent is a ghost in the target but present in the
+source), locally, with the source or the target opened through an in-process smart server (bzr://127.0.0.1), or
+through Branch.pull / Branch.push with a stop revision.  In ~45 % of the random/ghost scenarios the search batch
+size (a class attribute the test suite overrides too) is 1, 2, 3 or 5, so short histories span several batches.
+"long" scenarios build > 2 batches of history at the DEFAULT batch size with targets that hold a revision h
+without h's parent g (which the source has and merged long ago, like g's parent s1); the requested revisions are
+chosen by simulating the first search batch: one from which h lies in the LAST layer of the batch (g not seen when
+h is stopped: the search walks round h and returns g), one from which g lies in the last layer and s1 has not been
+seen (g is left out, s1 is returned: a sent revision whose child is an excluded parent the target lacks - the
+constellation that separates InterDifferingSerializer's per-revision text selection from the stream filter), one
+from which all three are inside the batch; plus mid-history-then-tip fetches in the thorough tier; plus the
+search alone against targets holding ARBITRARY subsets of the source revisions for batch sizes 1, 2, 3, 7, 50.
+On knit-delta targets texts the stream filter left out may still arrive as compression parents
+(get_stream_for_missing_keys): there the correspondence accepts extra texts, never missing ones.
+For every fetch the abstract state of source and target before the fetch is sent to the Lean driver (`fetchb`:
+batched search, per-revision or filtered copy, per-file parents) and its prediction (error kind, missing revision
+set, and the FULL records of the target afterwards: revision id:metadata:parents, inventory entries, text content
+tokens, per-file parents) is compared with the real repositories; where the whole ancestry fits one batch the
+one-batch model (`fetch`) is compared as well; where the copy is not compared (finding reported by the oracle,
+InterDifferingSerializer with stored ghost-parent inventories) the search result still is (`walk`).
 
-Oracle (independent of the model) after every fetch: the requested revision
-and every source-present ancestor (all of them for closed targets or
-find_ghosts=True) is in the target with an equal Revision object, an equal
-Testament short text, equal inventory entries, equal per-file graph parents,
-and every file text byte-identical to the source text with sha1 equal to the
-sha1 recorded in the inventory; everything the target had is unchanged;
-check() of the target reports nothing the source's check() does not; a second
-identical fetch finds nothing missing and leaves pack names and all key sets
-unchanged.
+Oracle (independent of the model) after every fetch: the requested revision and every source-present ancestor
+(all of them for closed targets or find_ghosts=True) is in the target with an equal Revision object, an equal
+Testament short text, equal inventory entries, equal per-file graph parents, and every file text byte-identical
+to the source text with sha1 equal to the sha1 recorded in the inventory; everything the target had is unchanged;
+check() of the target reports nothing the source's check() does not; a second identical fetch finds nothing
+missing and leaves pack names and all key sets unchanged.  Search-only cases: the result lies inside the source
+ancestry and outside the target, equals ancestry - target for ancestry-closed targets, is empty when the target
+holds the requested revision.  Timeouts / exhausted resources raise InfraError (exit 2), never a violation.
 
 Findings on the unchanged tree (reported with family slugs computed from the failing case):
  gc-rabin-delta-nul-after-source-end                bzrformats' compiled RabinGroupCompressor stores wrong bytes
@@ -54,17 +73,22 @@ Findings on the unchanged tree (reported with family slugs computed from the fai
  chk-/xml-stream-excludes-parent-the-target-lacks   the same exclusion when the target has a ghost the source has and
                                                     find_ghosts=False
  fetch-fails-when-target-has-a-ghost-the-source-has:<Exception>   the fetch raises in that situation
+                                                    (:BzrCheckError = InterDifferingSerializer into 2a,
+                                                    /var/tmp/imp-C03/repro_ids_bzrcheckerror.py)
 
 Mutants this was built against (scratch worktrees; O = caught by the oracle with a concrete fetch,
 T = caught by the correspondence only):
- M1  _walk_to_common_revisions stops only have_revs, not their seen ancestors              T (ghost filled)
+ M1  _walk_to_common_revisions stops only have_revs, not their seen ancestors              O (search-only) + T
  M2  search_missing_revision_ids: `if find_ghosts and ...` (branches swapped)               O + T
  M3  _find_parent_keys_of_revisions does not subtract the revisions themselves              O (texts missing / refused)
  M5  RemoteStreamSink ignores the missing-basis reply                                       O (remote target + ghost parent)
  M6  StreamSink never asks for missing parent inventories                                   O (new failure kinds)
  M10 _present_source_revisions_for keeps ghosts                                             T (missing set)
  M11 StreamSource.get_stream streams only the newest version of every altered file          O
+ M12 batch loop `while len(next_revs) <= batch_size` (off by one)                           T (long scenario, batched tie)
+ M13 InterBranch.fetch drops the stop revision from the fetch spec (pull/push)              O (pull mode)
  H1  harmless rewrite of the have_revs union in _walk_to_common_revisions                   clean
+ H2  harmless rewrite of ghosts_to_check / null_set handling                                clean
  (a mutant of RemoteRepository._serialise_search_recipe is not on the fetch path: C33 covers it)
 """
 import hashlib
@@ -80,20 +104,32 @@ THEOREMS = [
     "fetch_monotone", "fetch_complete", "fetch_find_ghosts_complete", "fetch_faithful", "fetch_testament",
     "fetch_texts_faithful", "fetch_idempotent", "fetch_consistent",
     "fetch_ghost_not_filled_witness", "fetch_orphan_inventory_witness",
+    # any history length / batch size, both kinds of copy
+    "walkB_total", "missingB_sound", "missingB_behind", "missingB_closed", "missingB_held_nil",
+    "missingB_batch_matters_witness",
+    "fetchB_monotone", "fetchB_complete", "fetchB_faithful", "fetchB_testament", "fetchB_texts_faithful",
+    "fetchB_consistent", "perRevision_cyclic_witness", "fetchB_idempotent", "fetchB_idempotent_acyclic",
+    # the hypotheses are invariants; sequences; per-file history
+    "fetchB_preserves_closed", "fetchB_preserves_agree", "fetch_preserves_closed", "fetch_preserves_agree",
+    "fetchSeq_invariant", "fetchSeq_from_empty", "fetchBH_perfile_faithful",
 ]
-RULE = ("scenario = (seed, source format, target format, transport mode); a generated history of 6-14 revisions "
-        "in two home repositories; case = one fetch (source home, target, revision, find_ghosts) performed on the "
-        "target's current contents; non-trivial = the fetch copies >= 1 revision while the target already holds "
-        ">= 1 revision of the source ancestry, or meets a ghost; distinct by (abstract source, abstract target, rev, flags)")
+RULE = ("scenario = (seed, source format, target format, transport mode local|remote-src|remote-tgt|pull|push, kind); "
+        "random/ghost/fork kinds: a generated history of 6-16 revisions in two home repositories (search batch size 50, "
+        "or 1/2/3/5 in ~45 % of them); long kind: 110-200 revisions at the default batch size; case = one fetch (source "
+        "home, target, revision, find_ghosts) performed on the target's current contents, or one revision search "
+        "against a target holding an arbitrary subset of the source; non-trivial = the fetch copies >= 1 revision "
+        "while the target already holds >= 1 revision of the source ancestry, or meets a ghost (search-only: a "
+        "non-empty result with a non-empty overlap); distinct by (abstract source, abstract target, rev, flags)")
 ASSUMPTIONS = [
-    "histories have fewer revisions than InterVersionedFileRepository._walk_to_common_revisions_batch_size (50), so "
-    "the revision search completes in one batch (the model describes that case)",
     "revision ids identify content: two repositories holding the same revision id hold equal records (checked per case)",
+    "the searcher (compiled vcsgraph._BreadthFirstSearcher) is modelled on its next_with_ghosts / find_seen_ancestors / "
+    "stop_searching_any / get_state behaviour; the model is compared with it on every search (batched tie, search tie)",
 ]
 TRUSTED = [
     "serialisers, group compression, CHK page filtering, pack files and the smart protocol are exercised by the "
     "correspondence run, not modelled; the theorems are about the abstract copy",
-    "vcsgraph's breadth-first searcher is specified by Model/C33.bfs (its own correspondence is checked by C33)",
+    "the one-batch model's ancestry walk is Model/C33.bfs (its own correspondence is checked by C33); the batched walk "
+    "is modelled in Model/C03.walkLoop",
 ]
 
 NULL = b"null:"
@@ -454,6 +490,10 @@ def numbering(states, extra_revs=()):
         for (fid, rev) in st["texts"]:
             fids.add(fid[0] if isinstance(fid, tuple) else fid)
             rids.add(rev)
+        for (fid, rev), ps in (st.get("tparents") or {}).items():
+            fids.add(fid)
+            rids.add(rev)
+            rids.update(p[-1] for p in ps)
     rids.discard(NULL)
     nb.rev = {rid: i + 1 for i, rid in enumerate(sorted(rids))}
     nb.fid = {fid: i + 1 for i, fid in enumerate(sorted(fids))}
@@ -475,6 +515,20 @@ def enc_state(st, nb, root_ids):
     return revs, invs, texts
 
 
+def enc_tpar(st, nb, root_ids):
+    """per-file parents of every text (root texts left out): `f.t:p.p` joined by `;`"""
+    return ";".join("%d.%d:%s" % (nb.f(fid), nb.r(rev), ".".join(str(nb.r(p[-1])) for p in ps) or "-")
+                    for (fid, rev), ps in sorted((st.get("tparents") or {}).items())
+                    if fid not in root_ids and (fid, rev) in st["texts"]) or "-"
+
+
+def canon_full(st, nb, root_ids):
+    """the four fields the `fetchb` reply carries for the target afterwards: full revision records,
+    full inventories, texts with content tokens, per-file parents"""
+    revs, invs, texts = enc_state(st, nb, root_ids)
+    return revs, invs, texts.replace(";", ","), enc_tpar(st, nb, root_ids)
+
+
 def canon_after(st, nb, root_ids):
     revs = ",".join(str(x) for x in sorted(nb.r(r) for r in st["revs"])) or "-"
     invs = ",".join(str(x) for x in sorted(nb.r(r) for r in st["invs"])) or "-"
@@ -484,13 +538,37 @@ def canon_after(st, nb, root_ids):
     return revs, invs, texts
 
 
+# ------------------------------------------------------------------ infrastructure failures are not findings
+def _is_infra(e):
+    """timeouts, full disks, exhausted descriptors/memory: the machine, not the code.  (A reset connection is NOT
+    infrastructure: that is how a client sees an exception in the smart server's handler.)"""
+    import errno
+    import socket
+    if isinstance(e, (MemoryError, socket.timeout, TimeoutError, env.InfraError)):
+        return True
+    if any(c.__name__ == "ConnectionTimeout" for c in type(e).__mro__):
+        return True
+    if "timed out" in str(e).lower() and any(
+            c.__name__ in ("ConnectionError", "SmartProtocolError", "TransportError") for c in type(e).__mro__):
+        return True
+    if isinstance(e, OSError) and e.errno in (errno.ENOSPC, errno.EMFILE, errno.ENFILE, errno.ENOMEM, errno.EDQUOT,
+                                              errno.ETIMEDOUT):
+        return True
+    return False
+
+
+def _reraise_infra(e, where):
+    if _is_infra(e):
+        raise env.InfraError("%s: %s: %s" % (where, type(e).__name__, str(e)[:200]))
+
+
 # ------------------------------------------------------------------ smart server
 class Server:
     def __init__(self, root):
         from breezy import transport as _mod_transport
         from breezy.bzr.smart import server as smart_server
         self.t = _mod_transport.get_transport(root)
-        self.srv = smart_server.SmartTCPServer(self.t, client_timeout=20.0)
+        self.srv = smart_server.SmartTCPServer(self.t, client_timeout=300.0)
         self.srv.start_server("127.0.0.1", 0)
         self.srv.start_background_thread("-c03")
         self.opened = []
@@ -628,6 +706,11 @@ def do_fetch(ctx, W, case, src_name, tgt_name, rev, find_ghosts, mode, batch):
     fmt_s, fmt_t = W.fmt[src_name], W.fmt[tgt_name]
     pre_s = read_state(W.path(src_name))
     pre_t = read_state(W.path(tgt_name))
+    if mode in ("pull", "push"):
+        if rev not in pre_s["revs"] or not W.has_branch.get(tgt_name) or not W.has_branch.get(src_name):
+            mode = "local"
+        else:
+            find_ghosts = False        # Branch.pull / push search with NotInOtherForRevs(find_ghosts=False)
     src = W.server.open_repo(src_name) if mode == "remote-src" else open_repo(W.path(src_name))
     tgt = W.server.open_repo(tgt_name) if mode == "remote-tgt" else open_repo(W.path(tgt_name))
     outcome = "ok"
@@ -639,6 +722,9 @@ def do_fetch(ctx, W, case, src_name, tgt_name, rev, find_ghosts, mode, batch):
     if inter_name == "InterKnitRepo":
         # InterKnitRepo.search_missing_revision_ids always takes the exhaustive path
         find_ghosts = True
+    from breezy.bzr.vf_repository import InterVersionedFileRepository
+    bs = InterVersionedFileRepository._walk_to_common_revisions_batch_size
+    ctx.count("batch-size:%d" % bs)
     try:
         with src.lock_read(), tgt.lock_read():
             real_missing = set(InterRepository.get(src, tgt).search_missing_revision_ids(
@@ -646,14 +732,24 @@ def do_fetch(ctx, W, case, src_name, tgt_name, rev, find_ghosts, mode, batch):
     except errors.NoSuchRevision:
         real_missing = "E:NoSuchRevision"
     except Exception as e:
+        _reraise_infra(e, "search_missing_revision_ids")
         real_missing = "E:%s" % type(e).__name__
     try:
-        tgt.fetch(src, revision_id=rev, find_ghosts=asked_fg)
+        if mode == "pull":
+            # Branch.pull: NotInOtherForRevs(find_ghosts=False) search, then Repository.fetch(fetch_spec=...)
+            from breezy.branch import Branch
+            Branch.open(W.path(tgt_name)).pull(Branch.open(W.path(src_name)), overwrite=True, stop_revision=rev)
+        elif mode == "push":
+            from breezy.branch import Branch
+            Branch.open(W.path(src_name)).push(Branch.open(W.path(tgt_name)), overwrite=True, stop_revision=rev)
+        else:
+            tgt.fetch(src, revision_id=rev, find_ghosts=asked_fg)
     except errors.NoSuchRevision:
         outcome = "E:NoSuchRevision"
     except errors.IncompatibleRepositories:
         outcome = "E:Incompatible"
     except Exception as e:
+        _reraise_infra(e, "fetch")
         outcome = "E:%s:%s" % (type(e).__name__, str(e)[:300])
     post_t = read_state(W.path(tgt_name))
     ctx.count("fetch:%s->%s" % (fmt_s, fmt_t))
@@ -669,6 +765,9 @@ def do_fetch(ctx, W, case, src_name, tgt_name, rev, find_ghosts, mode, batch):
     ctx.count("copied:%d" % min(len(new), 12))
     closed = is_closed(pre_t, pre_s)
     ctx.count("closed-target" if closed else "target-with-ghost-the-source-has:find_ghosts=%s" % find_ghosts)
+    if not closed and not find_ghosts and outcome == "ok" and rev in pre_s["revs"]:
+        # whether the search went round the held revision and filled the hole depends on the batch layering
+        ctx.count("target-with-ghost-the-source-has:ghosts-%s" % ("filled" if A <= set(post_t["revs"]) else "left"))
     overlap = len(A & set(pre_t["revs"]))
     ghosty = any(p not in pre_s["revs"] for r in A for p in pre_s["revs"][r][0])
     ctx.case(dict(case, n_src=len(pre_s["revs"]), n_tgt=len(pre_t["revs"]), copied=len(new)),
@@ -877,6 +976,7 @@ def do_fetch(ctx, W, case, src_name, tgt_name, rev, find_ghosts, mode, batch):
                     V("a second search after the fetch still finds %r missing" % sorted(again)[:4])
                 tgt2.fetch(src2, revision_id=rev, find_ghosts=find_ghosts)
             except Exception as e:
+                _reraise_infra(e, "second fetch")
                 V("second fetch failed: %s: %s" % (type(e).__name__, str(e)[:200]))
             post2 = read_state(W.path(tgt_name))
             for kind in ("revs", "invs", "texts", "tparents", "packs"):
@@ -884,7 +984,7 @@ def do_fetch(ctx, W, case, src_name, tgt_name, rev, find_ghosts, mode, batch):
                     V("a second identical fetch changed the target's %s" % kind)
     if corrupt or len(ctx.violations) > nviol0:
         W.tainted[tgt_name] = corrupt or "unclassified"
-    # ---------------- model line
+    # ---------------- model lines
     root_ids = {v[0] for st in (pre_s, pre_t, post_t) for v in st["roots"].values()}
     nb = numbering([pre_s, pre_t, post_t], extra_revs=[rev])
     sr, si, stx = enc_state(pre_s, nb, root_ids)
@@ -893,26 +993,44 @@ def do_fetch(ctx, W, case, src_name, tgt_name, rev, find_ghosts, mode, batch):
     # parent inventories are requested by StreamSink (get_missing_parent_inventories); InterDifferingSerializer
     # does not use the sink (and fills parent inventories only for stacked targets)
     ext = W.ext[tgt_name] and inter_name != "InterDifferingSerializer"
-    line = "fetch %s %s %s %d %s %s %s %s %s %s" % (x, "T" if ext else "F", "T" if find_ghosts else "F",
-                                                   nb.r(rev), sr, si, stx, tr, ti, ttx)
+    flags = "%s %s %s %d" % (x, "T" if ext else "F", "T" if find_ghosts else "F", nb.r(rev))
+    # the batched model with full records and per-file parents; InterDifferingSerializer selects the texts per
+    # revision (what its own parents' trees do not have), the stream sources per fetch
+    xb = "perrev" if inter_name == "InterDifferingSerializer" else x
+    line_b = "fetchb %d %s %s %s %s %s %s %s %s %s" % (
+        bs, "%s %s %s %d" % (xb, "T" if ext else "F", "T" if find_ghosts else "F", nb.r(rev)),
+        sr, si, stx, enc_tpar(pre_s, nb, root_ids), tr, ti, ttx, enc_tpar(pre_t, nb, root_ids))
+    # the one-batch model describes the search when the whole source ancestry fits one batch
+    line_1 = "fetch %s %s %s %s %s %s %s" % (flags, sr, si, stx, tr, ti, ttx) if len(A) < bs else None
+    if isinstance(real_missing, set):
+        miss = ",".join(str(x) for x in sorted(nb.r(r) for r in real_missing)) or "-"
+    else:
+        miss = str(real_missing)
     if outcome == "ok":
-        if isinstance(real_missing, set):
-            miss = ",".join(str(x) for x in sorted(nb.r(r) for r in real_missing)) or "-"
-        else:
-            miss = str(real_missing)
-        impl = "ok %s %s %s %s" % ((miss,) + canon_after(post_t, nb, root_ids))
+        impl_b = "ok %s %s %s %s %s" % ((miss,) + canon_full(post_t, nb, root_ids))
+        impl_1 = "ok %s %s %s %s" % ((miss,) + canon_after(post_t, nb, root_ids))
         if fmt_t not in GC_FORMATS:
             case = dict(case, owned_only=True)
     else:
-        impl = outcome.split(":")[0] + ":" + outcome.split(":")[1]
+        impl_b = impl_1 = outcome.split(":")[0] + ":" + outcome.split(":")[1]
+    # the revision search alone (what the fetch was going to copy): compared also where the copy itself is
+    # not (reported findings, InterDifferingSerializer with stored ghost-parent inventories)
+    line_w = "walk %d %d %s %s" % (bs, nb.r(rev), sr, ".".join(str(nb.r(r)) for r in sorted(pre_t["revs"])) or "-")
+    walk_ok = isinstance(real_missing, set) and not find_ghosts and rev in pre_s["revs"]
     if inter_name == "InterDifferingSerializer" and any(i not in pre_s["revs"] for i in pre_s["invs"]):
         # InterDifferingSerializer chooses bases per revision from the trees it can read (also trees of ghost
         # parents whose inventory the source happens to hold) and copies those inventories: not modelled
-        ctx.count("T2-skipped:InterDifferingSerializer-source-with-inventory-of-a-ghost")
+        ctx.count("T2-copy-skipped(search-still-compared):InterDifferingSerializer-source-with-inventory-of-a-ghost")
+        if walk_ok:
+            batch.append((dict(case, tie="search"), line_w, miss))
     elif rev in pre_s["revs"] and corrupt:
-        ctx.count("T2-skipped:reported-by-the-oracle(%s)" % str(corrupt).split(":")[0])
+        ctx.count("T2-copy-skipped(search-still-compared):reported-by-the-oracle(%s)" % str(corrupt).split(":")[0])
+        if walk_ok:
+            batch.append((dict(case, tie="search"), line_w, miss))
     elif not (incompatible and outcome == "E:Incompatible"):
-        batch.append((case, line, impl))
+        batch.append((dict(case, tie="batched"), line_b, impl_b))
+        if line_1 is not None:
+            batch.append((dict(case, tie="one-batch"), line_1, impl_1))
     return outcome, post_t
 
 
@@ -949,8 +1067,19 @@ def run_scenario(ctx, key, stop_at=None):
     W.server = None
     W.tainted = {}
     W.spec_text = {}
+    W.has_branch = {"A": True, "B": True}
     batch = []
+    from breezy.bzr.vf_repository import InterVersionedFileRepository
+    bs_default = InterVersionedFileRepository._walk_to_common_revisions_batch_size
     try:
+        if kind in ("random", "ghost") and rng.random() < 0.45:
+            # the batch size of the revision search is a class attribute the test suite overrides too: small
+            # values make short histories span several search batches
+            small = rng.choice([1, 2, 3, 5])
+            if not os.environ.get("C03_DEFAULT_BATCH"):      # development: keep the default batch size everywhere
+                InterVersionedFileRepository._walk_to_common_revisions_batch_size = small
+        if kind == "long":
+            return run_long(ctx, key, W, rng, batch, stop_at)
         NUL_FAMILY[0] = rng.random() < 0.4
         ctx.count("contents:with-nul-bytes" if NUL_FAMILY[0] else "contents:binary-without-nul")
         fork = None
@@ -971,7 +1100,7 @@ def run_scenario(ctx, key, stop_at=None):
             os.makedirs(W.path(h))
             builders[h] = BranchBuilder(_mod_transport.get_transport(W.path(h)),
                                         format=format_registry.make_controldir(fmt_s))
-        if mode != "local":
+        if mode not in ("local", "pull", "push"):
             W.server = Server(W.root)
         W.ghosty_revs = {rv.rid for rv in revs if rv.ghosts}
         for rv in revs:
@@ -1007,6 +1136,9 @@ def run_scenario(ctx, key, stop_at=None):
                 revs = revs[:revs.index(rv)]
                 break
         make_repo(W.path("T"), fmt_t)
+        if mode in ("pull", "push"):
+            open_repo(W.path("T")).controldir.create_branch()
+            W.has_branch["T"] = True
         W.ext["T"] = open_repo(W.path("T"))._format.supports_external_lookups
         allrevs = [rv.rid for rv in revs]
         nf = rng.randint(3, 5)
@@ -1075,8 +1207,11 @@ def run_scenario(ctx, key, stop_at=None):
                     ctx.count("scenario-stopped:a-fetch-damaged-its-target")
                 return batch
         return batch
+    except env.InfraError:
+        raise
     except Exception as e:
         # building the history (commits through BranchBuilder) or the harness' own reads failed on the real code
+        _reraise_infra(e, "scenario %r" % (key,))
         import traceback
         tb = traceback.extract_tb(e.__traceback__)
         where = next(("%s:%s" % (os.path.basename(f.filename), f.name) for f in reversed(tb) if "/breezy/" in f.filename), "?")
@@ -1084,14 +1219,298 @@ def run_scenario(ctx, key, stop_at=None):
                       % (type(e).__name__, str(e)[:300], where))
         return batch
     finally:
+        InterVersionedFileRepository._walk_to_common_revisions_batch_size = bs_default
         if W.server is not None:
             W.server.stop()
         shutil.rmtree(W.root, ignore_errors=True)
 
 
+# ------------------------------------------------------------------ long histories (several search batches)
+def long_shape(rng, n, tail):
+    """one home; a history of n + tail revisions: a main line with short side branches and merges, a few ghost
+    parents, a side branch S (never merged before revision a) whose tip g is merged into the main line early, and a
+    strictly linear tail of `tail` revisions at the end.  Returns (list of (rid, parents, ghosts), a, g)."""
+    r = lambda i: b"r%03d" % i  # noqa: E731
+    shape = [(r(1), [], [])]
+    width = rng.choice([1, 2, 3])
+    a = rng.randint(n // 4, n // 2)
+    side = []
+    i = 2
+    while i <= n:
+        if i == a + 1:
+            # side branch S off the main line: two revisions; g = its tip
+            shape.append((r(i), [r(i - 2)], []))
+            shape.append((r(i + 1), [r(i)], []))
+            side = [r(i), r(i + 1)]
+            # ... merged into the main line right away (deep below the tail); the first side revision is merged
+            # once more on its own, so it can be reached without passing g
+            shape.append((r(i + 2), [r(i - 1), r(i + 1)], []))
+            shape.append((r(i + 3), [r(i + 2)], []))
+            shape.append((r(i + 4), [r(i + 3), r(i)], []))
+            i += 5
+            continue
+        mains = [x[0] for x in shape[-width:] if x[0] not in side] or [shape[-1][0]]
+        left = rng.choice(mains)
+        ps, gh = [left], []
+        open_heads = [x[0] for x in shape if x[0] != left and x[0] not in side
+                      and not any(x[0] in y[1] for y in shape)]
+        if (rng.random() < 0.3 or len(open_heads) > width) and len(shape) > 3:
+            o = rng.choice(open_heads) if open_heads and rng.random() < 0.8 else \
+                rng.choice([x[0] for x in shape[-3 * width - 1:]])
+            if o != left:
+                ps.append(o)
+        if rng.random() < 0.04:
+            g_ = b"ghost%d" % i
+            ps.append(g_)
+            gh.append(g_)
+        shape.append((r(i), ps, gh))
+        i += 1
+    # the linear tail; the first tail revision joins every open head so that the tip has the whole history
+    return shape, r(a), side[1], side[0]
+
+
+def _first_batch(graph, rev, bs):
+    """the layers of the first batch of _walk_to_common_revisions from `rev` (no stop inside a batch) and what has
+    been seen at its end"""
+    seen, layers, nxt, acc = set(), [], [rev], 0
+    while acc < bs and nxt:
+        seen |= set(nxt)
+        found = [k for k in nxt if k in graph]
+        layers.append(found)
+        acc += len(found)
+        new = []
+        for k in found:
+            for p_ in graph[k]:
+                if p_ not in seen and p_ not in new:
+                    new.append(p_)
+        nxt = new
+    return layers, seen
+
+
+def run_long(ctx, key, W, rng, batch, stop_at):
+    """History of > 2 search batches.  Home A holds it all.  Home B takes r_a from A and commits h = merge(r_a, g)
+    WITHOUT fetching g (g = tip of a side branch A merged long ago; a ghost in B).  The target takes h from B (so it
+    holds a revision whose parent g it lacks although A has it), A takes h too, merges it and continues with a
+    linear line.  Then the target fetches from A: a revision from which h is met in the LAST layer of the first
+    search batch (g has not been seen when h is stopped: the search goes on and returns g through the old merge),
+    revisions where it is met earlier (g was seen: left out), the tip, and a mid-history revision first in a
+    second target."""
+    from breezy.branchbuilder import BranchBuilder
+    from breezy.controldir import format_registry
+    from breezy import transport as _mod_transport
+    from breezy.bzr.vf_repository import InterVersionedFileRepository
+    seed, idx, fmt_s, fmt_t, mode, big = key[:6]
+    bs = InterVersionedFileRepository._walk_to_common_revisions_batch_size
+    NUL_FAMILY[0] = False
+    n = rng.randint(bs + 10, bs + 40) if not big else rng.randint(2 * bs, 3 * bs)
+    tail = bs + rng.randint(8, 14)
+    shape, r_a, g, s1 = long_shape(rng, n, tail)
+    W.fmt = {"A": fmt_s, "B": fmt_s, "T": fmt_t, "U": fmt_t}
+    W.ext = {}
+    W.ghosty_revs = set()
+    builders = {}
+    for h_ in "AB":
+        os.makedirs(W.path(h_))
+        builders[h_] = BranchBuilder(_mod_transport.get_transport(W.path(h_)),
+                                     format=format_registry.make_controldir(fmt_s))
+        W.ext[h_] = builders[h_].get_branch().repository._format.supports_external_lookups
+    if mode not in ("local", "pull", "push"):
+        W.server = Server(W.root)
+    nstep = [0]
+
+    def case_of(src, tgt, rev, fg, m):
+        nstep[0] += 1
+        return dict(key=list(key), step=nstep[0], src=src, tgt=tgt, rev=rev.decode(), find_ghosts=fg, mode=m)
+
+    class Stop(Exception):
+        pass
+
+    def fetch(src, tgt, rev, fg, m):
+        """True = this target was damaged by a (reported) fetch: leave it alone"""
+        do_fetch(ctx, W, case_of(src, tgt, rev, fg, m), src, tgt, rev, fg, m, batch)
+        if stop_at is not None and nstep[0] >= stop_at:
+            raise Stop()
+        return bool(W.tainted.get(tgt))
+
+    files = ["f%d" % k for k in range(3)]
+    cnt = [0]
+
+    def commit(home, rid, parents, first=False):
+        cnt[0] += 1
+        if first:
+            acts = [("add", ("", b"root-id", "directory", None))] + [
+                ("add", (f, b"id-" + f.encode(), "file", b"%s line 0\n" % f.encode())) for f in files]
+        else:
+            f = files[cnt[0] % len(files)]
+            acts = [("modify", (f, b"%s line %d by %s\n" % (f.encode(), cnt[0], rid)))]
+        builders[home].build_snapshot(parents, acts, revision_id=rid, message="m %d" % cnt[0],
+                                      timestamp=1600000000 + cnt[0], timezone=0, committer="Joe <joe@example.com>")
+
+    try:
+        for (rid, ps, gh) in shape:
+            commit("A", rid, ps, first=not ps)
+            if gh:
+                W.ghosty_revs.add(rid)
+        main_tip = shape[-1][0]
+        heads = [x[0] for x in shape if not any(x[0] in y[1] for y in shape)]
+        ctx.count("long:revisions-before-tail=%d" % len(shape))
+        # B: r_a's ancestry (one long fetch into an empty repository: several batches, nothing to stop at), then h
+        if fetch("A", "B", r_a, False, "local"):
+            return batch
+        hrev = b"h-merge"
+        builders["B"].build_snapshot([r_a, g], [("modify", (files[0], b"h\n"))], revision_id=hrev, message="h",
+                                     timestamp=1600009000, timezone=0, committer="Joe <joe@example.com>")
+        W.ghosty_revs.add(hrev)
+        for t_ in "TU":
+            make_repo(W.path(t_), fmt_t)
+            if mode in ("pull", "push"):
+                open_repo(W.path(t_)).controldir.create_branch()
+                W.has_branch[t_] = True
+            W.ext[t_] = open_repo(W.path(t_))._format.supports_external_lookups
+        # T takes h from B: it now holds h without h's parent g (which A has)
+        fetch("B", "T", hrev, False, mode)
+        # A takes h, merges it (and every open head) and continues linearly
+        if fetch("B", "A", hrev, False, "local"):
+            return batch
+        tailrevs = []
+        prev = main_tip
+        for j in range(tail):
+            rid = b"t%03d" % (j + 1)
+            ps = [prev] + ([x for x in heads if x != prev] + [hrev] if j == 0 else [])
+            commit("A", rid, ps)
+            tailrevs.append(rid)
+            prev = rid
+        # where does the first search batch from tailrevs[k] end?  (layers of the linear tail hold one revision each)
+        graph = {rid: ps for rid, ps, _g in shape}
+        graph[hrev] = [r_a, g]
+        for j, rid in enumerate(tailrevs):
+            graph[rid] = [tailrevs[j - 1]] if j else [main_tip] + [x for x in heads if x != main_tip] + [hrev]
+        h_last, g_last, inside = [], [], []
+        for k, rid in enumerate(tailrevs):
+            layers, seen = _first_batch(graph, rid, bs)
+            if hrev in layers[-1]:
+                h_last.append(rid)          # g not seen when h is stopped: the search walks round h and returns g
+            elif g in layers[-1] and s1 not in seen:
+                g_last.append(rid)          # g seen (left out), its parent s1 not: s1 is returned, its child g is not
+            elif hrev in seen and g in seen and s1 in seen:
+                inside.append(rid)
+        ctx.count("long:first-batch-ends:h-last=%d,g-last=%d,inside=%d" % (bool(h_last), bool(g_last), bool(inside)))
+        # (a target damaged by a reported fetch is left alone; the other targets and the searches still run)
+        if not W.tainted.get("T") and not fetch("A", "T", rng.choice(h_last or tailrevs[bs - 2:bs - 1]), False, mode):
+            fetch("A", "T", tailrevs[-1], rng.random() < 0.3, mode)
+        # a second target: h from B as well, then a revision from which the batch ends one layer later / inside
+        other = rng.choice(g_last) if g_last else rng.choice(inside or tailrevs[-1:])
+        if not fetch("B", "U", hrev, False, "local"):
+            fetch("A", "U", other, False, mode)
+        if inside and g_last and (big or rng.random() < 0.5):
+            make_repo(W.path("X"), fmt_t)
+            W.fmt["X"] = fmt_t
+            W.ext["X"] = W.ext["T"]
+            m2 = "local" if mode in ("pull", "push") else mode
+            if not fetch("B", "X", hrev, False, "local"):
+                fetch("A", "X", rng.choice(inside), False, m2)
+        if big:
+            # a third target without holes: mid-history revision first, then the tip (several batches)
+            make_repo(W.path("V"), fmt_t)
+            W.fmt["V"] = fmt_t
+            W.ext["V"] = W.ext["T"]
+            mid = shape[len(shape) // 2][0]
+            m2 = "local" if mode in ("pull", "push") else mode
+            if not fetch("A", "V", mid, False, m2):
+                fetch("A", "V", tailrevs[-1], False, m2)
+        search_only(ctx, W, rng, "A", batch, key)
+        return batch
+    except Stop:
+        return batch
+
+
+def search_only(ctx, W, rng, src_name, batch, key):
+    """the revision search alone, against targets holding ARBITRARY subsets of the source's revisions (revision and
+    inventory records inserted directly), for several batch sizes.  Oracle (no model): the result lies in the
+    source ancestry and outside the target; for an ancestry-closed target it is exactly the ancestry the target
+    lacks; for a requested revision the target holds it is empty."""
+    from breezy.repository import InterRepository
+    from breezy.bzr.vf_repository import InterVersionedFileRepository
+    st = read_state(W.path(src_name))
+    ids = sorted(st["revs"])
+    fmt_s = W.fmt[src_name]
+    fmt_t = {"knit": "pack-0.92"}.get(fmt_s, fmt_s)
+    saved = InterVersionedFileRepository._walk_to_common_revisions_batch_size
+    nb = numbering([st])
+    sr = enc_state(st, nb, set())[0]
+    try:
+        for tnum in range(ctx.pick(2, 5)):
+            base = src_ancestry(st, rng.choice(ids))
+            keep = rng.choice([0.97, 0.85, 0.6])
+            sub = {r for r in base if rng.random() < keep} | {r for r in ids if rng.random() < 0.03}
+            name = "S%d" % tnum
+            t = make_repo(W.path(name), fmt_t)
+            srepo = open_repo(W.path(src_name))
+            try:
+                with srepo.lock_read(), t.lock_write():
+                    t.start_write_group()
+                    try:
+                        ks = [(r,) for r in sorted(sub)]
+                        if fmt_t in GC_FORMATS:
+                            t.texts.insert_record_stream(srepo.texts.get_record_stream(
+                                sorted(srepo.texts.keys()), "unordered", True))
+                            for inv in srepo.iter_inventories([k[-1] for k in ks]):
+                                t.add_inventory(inv.revision_id, inv, [])
+                        else:
+                            t.inventories.insert_record_stream(srepo.inventories.get_record_stream(ks, "unordered", True))
+                        t.revisions.insert_record_stream(srepo.revisions.get_record_stream(ks, "unordered", True))
+                        t.commit_write_group()
+                    except BaseException:
+                        t.abort_write_group()
+                        raise
+            except Exception as e:
+                _reraise_infra(e, "building a search-only target")
+                ctx.count("search-only:target-could-not-be-built(%s)" % type(e).__name__)
+                continue
+            tst = dict(revs={r: st["revs"][r] for r in sub})
+            closed = is_closed(tst, st)
+            th = ".".join(str(nb.r(r)) for r in sorted(sub)) or "-"
+            for n in (1, 2, 3, 7, saved):
+                InterVersionedFileRepository._walk_to_common_revisions_batch_size = n
+                for rev in rng.sample(ids, min(len(ids), ctx.pick(4, 8))) + [ids[-1]]:
+                    s2, t2 = open_repo(W.path(src_name)), open_repo(W.path(name))
+                    case = dict(key=list(key), search_only=True, target=tnum, batch_size=n, rev=rev.decode())
+                    try:
+                        with s2.lock_read(), t2.lock_read():
+                            real = set(InterRepository.get(s2, t2).search_missing_revision_ids(
+                                revision_ids=[rev], find_ghosts=False).get_keys())
+                    except Exception as e:
+                        _reraise_infra(e, "search_missing_revision_ids")
+                        ctx.violation(case, "search_missing_revision_ids raised %s: %s" % (type(e).__name__, str(e)[:200]))
+                        continue
+                    A = src_ancestry(st, rev)
+                    ctx.case(dict(case, n_src=len(ids), n_tgt=len(sub)), nontrivial=bool(real) and bool(A & sub))
+                    ctx.count("search-only:%s" % ("closed-target" if closed else "target-with-holes"))
+                    ctx.count("search-only:batches=%d" % min(1 + len(A) // n, 6))
+                    if not real <= A - sub:
+                        ctx.violation(case, "the search returned %r: outside the source ancestry of %r or held by the "
+                                      "target" % (sorted(real - (A - sub))[:4], rev))
+                    elif closed and real != A - sub:
+                        ctx.violation(case, "ancestry-closed target: the search left out %r (batch size %d)"
+                                      % (sorted((A - sub) - real)[:4], n))
+                    elif rev in sub and real:
+                        ctx.violation(case, "the target holds %r but the search returned %r" % (rev, sorted(real)[:4]))
+                    miss = ",".join(str(x) for x in sorted(nb.r(r) for r in real)) or "-"
+                    batch.append((dict(case, tie="search"), "walk %d %d %s %s" % (n, nb.r(rev), sr, th), miss))
+    finally:
+        InterVersionedFileRepository._walk_to_common_revisions_batch_size = saved
+
+
 def _descendants_in(W, home, rid):
     st = read_state(W.path(home))
     return sorted(r for r in st["revs"] if r != rid and rid in src_ancestry(st, r))
+
+
+MODES5 = ["local", "remote-src", "pull", "remote-tgt", "push"]
+LONG_QUICK = [("knit", "2a", "local"), ("pack-0.92", "pack-0.92", "remote-src"), ("knit", "pack-0.92", "pull"),
+              ("pack-0.92", "2a", "remote-tgt"), ("knit", "knit", "push"), ("pack-0.92", "2a", "local"),
+              ("knit", "2a", "remote-src")]
+LONG_THOROUGH = [("2a", "2a", "local"), ("2a", "2a", "remote-tgt"), ("1.9-rich-root", "2a", "pull")]
 
 
 def scenario_keys(ctx):
@@ -1100,7 +1519,7 @@ def scenario_keys(ctx):
     i = 0
     for rnd in range(ctx.pick(3, 4)):
         for (a, b) in pairs_for(ctx):
-            keys.append((ctx.seed, i, a, b, modes[(i + ctx.seed) % 3] if not ctx.thorough() else modes[i % 3], ctx.thorough()))
+            keys.append((ctx.seed, i, a, b, MODES5[(i + ctx.seed) % 5], ctx.thorough()))
             i += 1
     # one extra 2a->2a local scenario (largest groups)
     keys.append((ctx.seed, i, "2a", "2a", "local", ctx.thorough()))
@@ -1108,7 +1527,7 @@ def scenario_keys(ctx):
     gp = [("2a", "2a"), ("pack-0.92", "pack-0.92"), ("knit", "2a"), ("pack-0.92", "2a"), ("knit", "pack-0.92"), ("1.9-rich-root", "2a")]
     for j in range(ctx.pick(5, 12)):
         a, b = gp[(ctx.seed + j) % len(gp)]
-        keys.append((ctx.seed, i + 1 + j, a, b, modes[(j + ctx.seed) % 3], False, "ghost"))
+        keys.append((ctx.seed, i + 1 + j, a, b, MODES5[(j + ctx.seed) % 5], False, "ghost"))
     # partial overlap exactly at a fork point, always including the non-rich-root -> rich-root upgrades,
     # locally (InterDifferingSerializer) and through the smart server (stream route)
     fp = [("pack-0.92", "2a"), ("knit", "2a"), ("pack-0.92", "rich-root-pack"), ("2a", "2a"), ("knit", "rich-root-pack"),
@@ -1117,6 +1536,15 @@ def scenario_keys(ctx):
     for j in range(nfork):
         a, b = fp[j % len(fp)]
         keys.append((ctx.seed, i + 100 + j, a, b, modes[(j // len(fp) + j + ctx.seed) % 3], False, "fork"))
+    # histories spanning several batches of the revision search (> 50 revisions), with a target holding a revision
+    # one of whose parents it lacks, met by the search at the end of / inside a batch; + the search alone against
+    # arbitrary targets
+    for j in range(ctx.pick(1, 5)):
+        a, b, m = LONG_QUICK[(ctx.seed + j) % len(LONG_QUICK)]
+        keys.append((ctx.seed, i + 200 + j, a, b, m, ctx.thorough() and j == 0, "long"))
+    if ctx.thorough():
+        for j, (a, b, m) in enumerate(LONG_THOROUGH):
+            keys.append((ctx.seed, i + 300 + j, a, b, m, False, "long"))
     return keys
 
 
@@ -1124,12 +1552,37 @@ def _owned(reply):
     """knit-delta formats also store the compression parents of what they receive (inventories and texts of
     revisions the target does not hold): compare only keys of revisions the target holds"""
     f = reply.split(" ")
-    if len(f) != 5 or f[0] != "ok":
+    if f[0] != "ok":
         return reply
-    revs = set(f[2].split(","))
-    invs = ",".join(i for i in f[3].split(",") if i in revs) or "-"
-    texts = ",".join(t for t in f[4].split(",") if t != "-" and t.split(".")[1] in revs) or "-"
-    return " ".join([f[0], f[1], f[2], invs, texts])
+    if len(f) == 5:
+        revs = set(f[2].split(","))
+        invs = ",".join(i for i in f[3].split(",") if i in revs) or "-"
+        texts = ",".join(t for t in f[4].split(",") if t != "-" and t.split(".")[1] in revs) or "-"
+        return " ".join([f[0], f[1], f[2], invs, texts])
+    if len(f) == 6:
+        revs = {r.split(":")[0] for r in f[2].split(";")}
+        invs = ";".join(i for i in f[3].split(";") if i.split(":")[0] in revs) or "-"
+        texts = ",".join(t for t in f[4].split(",") if t != "-" and t.split(".")[1] in revs) or "-"
+        tpar = ";".join(t for t in f[5].split(";") if t != "-" and t.split(":")[0].split(".")[1] in revs) or "-"
+        return " ".join([f[0], f[1], f[2], invs, texts, tpar])
+    return reply
+
+
+def _only_extra_texts(impl, model):
+    """both replies are ok, equal in everything but the text / per-file-parent fields, and there the real target
+    holds everything the model predicts (and more)"""
+    a, b = impl.split(" "), model.split(" ")
+    if len(a) != len(b) or a[0] != "ok" or b[0] != "ok" or len(a) not in (5, 6):
+        return False
+    if a[:4] != b[:4]:
+        return False
+    for x, y in zip(a[4:], b[4:]):
+        sep = ";" if ":" in (x + y) else ","
+        sx = set(x.split(sep)) - {"-"}
+        sy = set(y.split(sep)) - {"-"}
+        if not sy <= sx:
+            return False
+    return True
 
 
 def _flush(ctx, batch):
@@ -1137,8 +1590,14 @@ def _flush(ctx, batch):
         outs = ctx.model([b[1] for b in batch])
         for (case, line, impl), m in zip(batch, outs):
             ctx.traces += 1
+            ctx.count("T2:" + case.get("tie", "batched"))
             if case.get("owned_only"):
                 impl, m = _owned(impl), _owned(m)
+                if impl != m and _only_extra_texts(impl, m):
+                    # a knit-delta target also receives the compression parents of the texts it is sent
+                    # (get_stream_for_missing_keys): texts the stream filter left out may arrive that way
+                    ctx.count("T2:extra-texts-of-a-knit-delta-target-accepted")
+                    continue
             if impl != m:
                 ctx.mismatch(case, impl, m, line=line)
 
@@ -1176,6 +1635,9 @@ def widen(ctx):
     batch = []
     for i in range(100, 112):
         batch += run_scenario(ctx, (ctx.seed, i, "2a", "2a", "local", True))
+    for j in range(3):
+        a, b, m = LONG_QUICK[(ctx.seed + 1 + j) % len(LONG_QUICK)]
+        batch += run_scenario(ctx, (ctx.seed, 400 + j, a, b, m, False, "long"))
     _flush(ctx, batch)
 
 
@@ -1186,7 +1648,7 @@ def replay(ctx, case):
     batch = run_scenario(ctx, tuple(case["key"]), stop_at=case.get("step"))
     if case.get("step") is None:
         return dict(case=case, oracle_failures=[v["what"] for v in ctx.violations])
-    last = [b for b in batch if b[0]["step"] == case["step"]]
+    last = [b for b in batch if b[0].get("step") == case["step"] and b[0].get("tie") == case.get("tie", b[0].get("tie"))]
     out = dict(case=case, oracle_failures=[v["what"] for v in ctx.violations if v["case"] and v["case"].get("step") == case["step"]])
     if last:
         out["impl"] = last[0][2]
